@@ -171,18 +171,21 @@ pub struct Step {
 pub struct Trace {
     pub seed: u64,
     pub depth: usize,
+    /// 0: new(tree_height, config); 1: new_with_params(tree_height, zkey bytes, graph bytes, config)
+    pub ctor: u8,
     pub steps: Vec<Step>,
 }
 
 impl Trace {
     pub fn to_json(&self) -> Value {
-        json!({"engine":"e3","property":"C11","seed":self.seed,"depth":self.depth as u64,
+        json!({"engine":"e3","property":"C11","seed":self.seed,"depth":self.depth as u64,"ctor":self.ctor,
             "steps": self.steps.iter().map(|s| { let mut j = s.call.to_json(); if s.storage_fail_at > 0 { j["storage_fail_at"] = json!(s.storage_fail_at); } j }).collect::<Vec<_>>()})
     }
     pub fn from_json(v: &Value) -> Option<Trace> {
         Some(Trace {
             seed: v["seed"].as_u64().unwrap_or(0),
             depth: v["depth"].as_u64()? as usize,
+            ctor: v["ctor"].as_u64().unwrap_or(0) as u8,
             steps: v["steps"].as_array()?.iter().filter_map(|s| Some(Step { call: Call::from_json(s)?, storage_fail_at: s["storage_fail_at"].as_u64().unwrap_or(0) })).collect(),
         })
     }
@@ -577,14 +580,30 @@ fn state_of(r: &mut RLN, depth: usize, full: bool) -> Result<Vec<u8>, String> {
 }
 
 pub fn run_trace(trace: &Trace, ctx: &mut Ctx) -> RunOutcome {
-    let rust = match guarded(|| RLN::new(trace.depth, Cursor::new(cfg_json()))) {
+    let zkey: &[u8] = rln::circuit::ZKEY_BYTES;
+    #[cfg(feature = "arkzkey")]
+    let zkey: &[u8] = rln::circuit::ARKZKEY_BYTES;
+    let graph: &[u8] = rln::circuit::graph_from_folder();
+    // new_with_params takes the tree configuration itself (not wrapped in {"tree_config": ..}); empty = default
+    let rust_r = if trace.ctor == 1 {
+        guarded(|| RLN::new_with_params(trace.depth, zkey.to_vec(), graph.to_vec(), Cursor::new(Vec::<u8>::new())))
+    } else {
+        guarded(|| RLN::new(trace.depth, Cursor::new(cfg_json())))
+    };
+    let rust = match rust_r {
         Ok(Ok(r)) => r,
         other => return RunOutcome { violation: None, harness_error: Some(format!("RLN::new: {:?}", other.map(|x| x.map(|_| ()).map_err(|e| e.to_string())))) },
     };
     let mut ffi_ctx: *mut RLN = std::ptr::null_mut();
     let cfg = cfg_json();
-    if !ffi::new(trace.depth, &buf(&cfg), &mut ffi_ctx) || ffi_ctx.is_null() {
-        return RunOutcome { violation: Some(Violation { step: 0, call: "new".into(), clause: "flag".into(), detail: "ffi::new failed where RLN::new succeeded".into() }), harness_error: None };
+    let empty: Vec<u8> = Vec::new();
+    let ok = if trace.ctor == 1 {
+        ffi::new_with_params(trace.depth, &buf(zkey), &buf(graph), &buf(&empty), &mut ffi_ctx)
+    } else {
+        ffi::new(trace.depth, &buf(&cfg), &mut ffi_ctx)
+    };
+    if !ok || ffi_ctx.is_null() {
+        return RunOutcome { violation: Some(Violation { step: 0, call: "new".into(), clause: "flag".into(), detail: "the FFI constructor failed where the Rust constructor succeeded".into() }), harness_error: None };
     }
     let mut s = Sides { rust, ffi: ffi_ctx, msgs_rust: Vec::new(), msgs_ffi: Vec::new() };
     let mut depth = trace.depth;
@@ -842,7 +861,7 @@ pub fn generate(seed: u64, thorough: bool) -> Trace {
                         Call::SeqAtomic { leaves, indices: enc_vec_u8(&rem2) }
                     }
                 }
-                7 => { hwm = 0; Call::SetTree { depth } }
+                7 => { hwm = 0; Call::SetTree { depth: if rng.chance(1, 3) { 1 + rng.usize_below(6) } else { depth } } }
                 8 => Call::GetLeaf { i: pos(&mut rng, hwm) },
                 9 => Call::GetRoot,
                 10 => Call::GetProof { i: rng.usize_below(cap) },
@@ -874,7 +893,8 @@ pub fn generate(seed: u64, thorough: bool) -> Trace {
         }
         steps.push(Step { call, storage_fail_at });
     }
-    Trace { seed, depth, steps }
+    let ctor = (seed % 5 == 0) as u8;
+    Trace { seed, depth, ctor, steps }
 }
 
 pub fn shrink(trace: &Trace, class: &str, budget: usize) -> (Trace, usize) {
